@@ -143,7 +143,6 @@ var c05Templates = []string{
 	"var x = 1; { let x = 2; { const x = 3; H.p(90, x) } H.p(91, x) } return x;",
 	"var fs = []; for (let i = 0; i < 2; i++) fs.push(() => i); return fs.map(f => f());",
 	"return [1n + 2n, typeof 1n, 2n * 3n];",
-	"return import.meta;",
 	"return ((a1, b1 = a1, [c1, d1 = c1] = [$0], {e1 = d1} = {}) => [a1, b1, c1, d1, e1])(1);",
 	"var {a: {b: [x = $0, ...y]} = {b: []}} = {}; return [x, y];",
 	"return `a${$0}b${$1}c`;",
